@@ -144,7 +144,9 @@ func Verify(w *World, c *Contract) (res *FuncResult) {
 			if u, ok := r.(unsupported); ok {
 				res.Errs = append(res.Errs, "left-subset: "+u.msg)
 			} else {
-				panic(r)
+				// a construct the executor mishandles: the function cannot be verified;
+				// reported like any other construct outside the subset, not a crash
+				res.Errs = append(res.Errs, fmt.Sprintf("left-subset: internal error of the VC generator: %v", r))
 			}
 		}
 		res.Obls = x.obls
